@@ -43,7 +43,7 @@ macro "inv3_close2" hi:ident h1:ident : tactic =>
       | exact ($hi).chanIdx | exact ($hi).takenIdx | exact ($hi).buildingNeeds | exact ($hi).queuedDeps | exact ($hi).waitedDeps | exact ($hi).waitSub
       | (intros; have := ($hi).activeHasQueuer; have := ($hi).pendingHasToken; have := ($hi).buildingHasWorker
          have := ($hi).chanIdx; have := ($hi).takenIdx; have := ($hi).buildingNeeds; have := ($hi).queuedDeps; have := ($hi).waitedDeps; have := ($hi).waitSub
-         have := ($h1).qFresh; have := ($h1).mFresh; have := ($h1).wFresh; have := ($h1).waitBuilding; have := ($h1).bqActive; have := ($h1).bqUnique; have := ($h1).bqWait; have := ($h1).chanPending; have := ($h1).chanUnique; have := ($h1).takenPending; have := ($h1).takenUnique; have := ($h1).chanTaken; have := ($h1).wBuilding; have := ($h1).wBuildingUnique; have := ($h1).notStopped; have := ($h1).finTerm
+         have := ($h1).qFresh; have := ($h1).mFresh; have := ($h1).wFresh; have := ($h1).waitBuilding; have := ($h1).bqActive; have := ($h1).bqUnique; have := ($h1).bqWait; have := ($h1).chanPending; have := ($h1).chanUnique; have := ($h1).takenPending; have := ($h1).takenUnique; have := ($h1).chanTaken; have := ($h1).wBuilding; have := ($h1).wBuildingUnique; have := ($h1).notStopped; have := ($h1).finTerm; have := ($h1).wtNotBuilding
          simp only [upd, Queuer.live] at * <;> grind [TS.rank, TS.terminal, TS.isBuilt, TS.isBad, liveFor])))
 
 theorem inv3_init : Inv3 c St.init := by
@@ -156,6 +156,9 @@ theorem inv3_queuer {s s' : St} (h1 : Inv c s) (hi : Inv3 c s) (i : Nat) (q : Qu
     have hm := fresh_m c h1
     split at h <;> (cases h; inv3_close2 hi h1)
   · cases h; apply taskDone_inv3; inv3_close2 hi h1
+  · split at h
+    · cases h; inv3_close2 hi h1
+    · cases h
 
 theorem inv3_take {s s' : St} (h1 : Inv c s) (hi : Inv3 c s) (m : Nat) (h : fire c s (.take m) = some s') : Inv3 c s' := by
   simp only [fire] at h
@@ -233,6 +236,23 @@ theorem step_inv3 {s s' : St} (h1 : Inv c s) (hi : Inv3 c s) (h : Step c s s') :
     · cases h
     · cases h; apply taskDone_inv3; inv3_close hi
   | stop => simp only [fire] at h; cases h; inv3_close hi
+  | subWait t =>
+    simp only [fire] at h
+    split at h
+    · split at h
+      · cases h; inv3_close hi
+      · cases h
+        have h1' := qrt_inv c h1 t true
+        have h3' := qrt_inv3 c h1 hi t true
+        have hq1 := fresh_q c h1'
+        generalize qrt c s t true = s1 at h1' h3' hq1
+        inv3_close2 h3' h1'
+    · cases h
+  | cycleCheck =>
+    simp only [fire] at h
+    split at h
+    · cases h; inv3_close hi
+    · cases h
 
 theorem reach_inv3 {s : St} (h : Reach c s) : Inv3 c s := by
   induction h with
@@ -349,6 +369,15 @@ theorem step_acct {s s' : St} (h1 : Inv c s) (ha : Acct s) (h : Step c s s') : A
         have := ha hs
         simp only [units, ind] at *
         omega
+      · split at h
+        · cases h
+          intro hs
+          have e := sumTo_upd s.qs ind s.nextQ i hlt (some { q with ph := .done })
+          rw [hq] at e
+          have := ha hs
+          simp only [units, ind] at *
+          omega
+        · cases h
     · cases h
   | queuerAbort i =>
     simp only [fire] at h
@@ -442,6 +471,26 @@ theorem step_acct {s s' : St} (h1 : Inv c s) (ha : Acct s) (h : Step c s s') : A
       simp only [units] at *
       omega
   | stop => simp only [fire] at h; cases h; intro hs; cases hs
+  | subWait t =>
+    simp only [fire] at h
+    split at h
+    · split at h
+      · cases h; exact ha
+      · cases h
+        have a1 := qrt_acct c h1 ha t true
+        generalize qrt c s t true = s1 at a1
+        intro hs
+        have e := sumTo_push s1.qs ind s1.nextQ (some ⟨t, false, true, .waitTarget t⟩)
+        have := a1 hs
+        have e1 : ind (some (Queuer.mk t false true (.waitTarget t))) = 1 := rfl
+        simp only [units] at *
+        rw [e, e1]; omega
+    · cases h
+  | cycleCheck =>
+    simp only [fire] at h
+    split at h
+    · cases h; intro hs; cases hs
+    · cases h
 
 theorem reach_acct {s : St} (h : Reach c s) : Acct s := by
   induction h with
